@@ -417,6 +417,82 @@ pub fn raster(sink: &mut Sink, seed: u64, thorough: bool) {
     }
 }
 
+// ------------------------------------------------------------------ renderer sessions (C14: a rendering depends on the QR code and the FINAL options only)
+/// One builder object lives through setter calls and renderings interleaved; every rendering is recorded with the calls made
+/// so far (judged against the registers of the model) and compared with a fresh builder given the same calls.
+pub fn sessions(sink: &mut Sink, seed: u64, thorough: bool) {
+    let mut r = rng(seed, 23);
+    let alpha: Vec<Call> = vec![
+        Call::Shape(1), Call::Shape(4), Call::ShapeColor(0, COLORS[2].to_vec()), Call::Margin(0), Call::Margin(7), Call::Margin(4),
+        Call::ModuleColor(COLORS[2].to_vec()), Call::BackgroundColor(COLORS[3].to_vec()), Call::Image("logo.png".into()), Call::Image("other.png".into()),
+        Call::ImageBackgroundShape(1), Call::ImageBackgroundColor(COLORS[2].to_vec()), Call::ImageSize(7.0), Call::ImageGap(1.5), Call::ImagePosition(12.0, 13.5),
+    ];
+    let qrs = [qr_of(2, seed), qr_of(2, seed + 1), qr_of(5, seed)];
+    // segments: calls, then a rendering of qrs[k]
+    let mut plans: Vec<Vec<(Vec<Call>, usize)>> = Vec::new();
+    for a in &alpha { for b in &alpha {
+        if matches!((a, b), (Call::Image(_), _) | (_, Call::Image(_))) || r.gen_range(0..6) == 0 {
+            plans.push(vec![(vec![a.clone()], 0), (vec![b.clone()], 0)]);                 // a, render, b, render (same code)
+        }
+    } }
+    for _ in 0..(if thorough { 600 } else { 120 }) {
+        let segs = r.gen_range(2..5);
+        plans.push((0..segs).map(|_| ((0..r.gen_range(0..3)).map(|_| alpha[r.gen_range(0..alpha.len())].clone()).collect(), r.gen_range(0..3))).collect());
+    }
+    for (pi, plan) in plans.iter().enumerate() {
+        let plan2 = plan.clone();
+        let qrs2 = qrs.clone();
+        // the whole session runs as one job: one builder object
+        let res = guarded(120, move || {
+            let mut b = SvgBuilder::default();
+            let mut sofar: Vec<Call> = Vec::new();
+            let mut outs = Vec::new();
+            for (calls, k) in &plan2 {
+                for c in calls { c.apply(&mut b); sofar.push(c.clone()); }
+                let s = b.to_str(&qrs2[*k]);
+                let fresh = svg_builder(&sofar).to_str(&qrs2[*k]);
+                outs.push((sofar.clone(), *k, s == fresh, s));
+            }
+            outs
+        });
+        match res {
+            Ok(outs) => for (si, (prog, k, same, svg)) in outs.into_iter().enumerate() {
+                let id = sink.id();
+                sink.emit(&json!({"ev": "Svg", "id": id, "tag": format!("session:{}", si.min(3)), "size": qrs[k].size, "vals": vals_of(&qrs[k]), "program": program_json(&prog), "kind": "Ok",
+                                  "obs": sense_svg(&svg), "qr_unchanged": 1, "fresh_eq": same as u8, "session": pi}));
+            },
+            Err(kd) => { let id = sink.id(); sink.emit(&json!({"ev": "Svg", "id": id, "tag": "session:0", "size": qrs[0].size, "vals": vals_of(&qrs[0]), "program": [], "kind": kd, "obs": sense_svg("<x"), "qr_unchanged": 1, "fresh_eq": 0, "session": pi})); }
+        }
+    }
+    // the same for the raster builder (pixmap bytes compared with a fresh builder's)
+    for pi in 0..(if thorough { 120 } else { 30 }) {
+        let segs = r.gen_range(2..4);
+        let plan: Vec<(Vec<Call>, usize)> = (0..segs).map(|si| {
+            let mut calls: Vec<Call> = (0..r.gen_range(0..3)).map(|_| match r.gen_range(0..6) { 0 => Call::Margin(r.gen_range(0..6)), 1 => Call::Shape(r.gen_range(0..6)), 2 => Call::FitWidth(4 * 40 + 8 * r.gen_range(0..4)), 3 => Call::ModuleColor(COLORS[2].to_vec()), 4 => Call::BackgroundColor(vec![250, 240, 230, 255]), _ => Call::FitHeight(5 * 40) }).collect();
+            if si == 0 && pi % 3 == 0 { calls.push(Call::Image("logo.png".into())); }
+            (calls, r.gen_range(0..2))
+        }).collect();
+        let qrs2 = qrs.clone();
+        let res = guarded(300, move || {
+            let mut b = ImageBuilder::default();
+            let mut sofar: Vec<Call> = Vec::new();
+            let mut same_all = Vec::new();
+            for (calls, k) in &plan {
+                for c in calls { match c { Call::FitWidth(w) => { b.fit_width(*w); } Call::FitHeight(h) => { b.fit_height(*h); } other => other.apply(&mut b) } sofar.push(c.clone()); }
+                let pm = b.to_pixmap(&qrs2[*k]);
+                let fresh = image_builder(&sofar).to_pixmap(&qrs2[*k]);
+                same_all.push((sofar.len(), *k, pm.data() == fresh.data() && pm.width() == fresh.width()));
+            }
+            same_all
+        });
+        let id = sink.id();
+        match res {
+            Ok(v) => sink.emit(&json!({"ev": "RasterSession", "id": id, "tag": "rsession", "kind": "Ok", "renders": v.iter().map(|x| vec![x.0, x.1, x.2 as usize]).collect::<Vec<_>>()})),
+            Err(kd) => sink.emit(&json!({"ev": "RasterSession", "id": id, "tag": "rsession", "kind": kd, "renders": []})),
+        }
+    }
+}
+
 // ------------------------------------------------------------------ custom shape callbacks (C15: "custom shape callbacks ... see a correct map")
 /// The callback encodes the type label it is handed into the height of the sub-path it returns: v.{type+1}
 fn label_callback(y: usize, x: usize, m: fast_qr::Module) -> String {
